@@ -75,7 +75,7 @@ class Case final : public sim::CaseBase {
   void Generate(sim::Gen& g) final {
     bare_event = g.Draw(4) == 3;
     pool_workers = 1 + g.Draw(2);
-    const int nw = 1 + static_cast<int>(g.Draw(4));
+    const int nw = 1 + static_cast<int>(g.Draw(sim::Thorough() ? 6 : 4));
     for (int i = 0; i < nw; ++i) {
       Waiter w;
       w.form = static_cast<int>(g.Draw(bare_event ? kWFormCount : kWFormCount - 1));
